@@ -40,6 +40,7 @@ def gen(rng, tier):
                 elif rel == "rand":
                     for _ in range(rng.randint(0, 2)): E[rng.randrange(n)] += rng.choice([-1, 1, 1])
                 if rng.random() < (0.8 if rel == "eq" else 0.4): E[q] += rng.choice([-2, -1, 1, 3])
+                if n >= 2 and rng.random() < 0.5: a_, b_ = rng.sample(range(n), 2); c["mv"] = [a_, b_, rng.randint(1, 3)]
                 c.update({"E": E, "q2": q if rng.random() < 0.8 else (q + 1) % n, "other": rng.choice([None, None, None, None, None, "mult", "edge", "vset"]) if n >= 2 else None})
         elif kind == "parking":
             n = rng.randint(0, 6); a = [rng.randint(0 if rng.random() < 0.2 else 1, n + (1 if rng.random() < 0.2 else 0)) for _ in range(n)]
@@ -97,6 +98,16 @@ def impl(c):
             try: r.append(bool(f()))
             except ValueError: r.append("err")
         out["cmp"] = r
+        # history: the chips of the first configuration are then moved on its underlying divisor directly (not through the configuration object) and the
+        # comparisons are asked again on the same two objects
+        mv = c.get("mv")
+        if mv:
+            d.chip_transfer(names[mv[0]], names[mv[1]], mv[2]); r2 = []
+            for f in (lambda: cfg <= cf2, lambda: cfg == cf2, lambda: cfg < cf2, lambda: cfg >= cf2, lambda: cfg > cf2):
+                try: r2.append(bool(f()))
+                except ValueError: r2.append("err")
+            out["cmp2"] = r2; out["sum2"] = cfg.get_degree_sum()
+            d.chip_transfer(names[mv[1]], names[mv[0]], mv[2])       # moved back: the purity snapshot below is about the queries, not about this hand-made move
     elif k == "count":
         M = common.matrix(G); others = [v for v in range(n) if v != c["q"]]; cnt = 0
         for vals in itertools.product(*[range(sum(M[v])) for v in others]):
@@ -112,7 +123,11 @@ def model_lines(c):
     g = common.enc_graph(c["G"]); q = c["q"]; D = common.enc_list(c["D"])
     if c["kind"] == "legal": return [["legal"] + g + [q] + D + common.enc_list(c["S"])]
     if c["kind"] == "sstable": return [["sstable"] + g + [q] + D]
-    if c["kind"] == "order": return [["cfgcmp"] + g + [q] + D + common.enc_list(c["E"])]
+    if c["kind"] == "order":
+        ls = [["cfgcmp"] + g + [q] + D + common.enc_list(c["E"])]
+        if c.get("mv"):
+            D2 = list(c["D"]); D2[c["mv"][0]] -= c["mv"][2]; D2[c["mv"][1]] += c["mv"][2]; ls.append(["cfgcmp"] + g + [q] + common.enc_list(D2) + common.enc_list(c["E"]))
+        return ls
     return [["sscount"] + g + [q]]
 def judge(c, r, mo):
     if "exc" in r: return [{"what": "implementation raised %s: %s" % (r["exc"], r.get("msg"))}]
@@ -137,6 +152,12 @@ def judge(c, r, mo):
         le, eq, lt, ge, gt = [x == "1" for x in mo[0]]
         exp = [le, eq, lt, ge, gt] if (c["q2"] == c["q"] and not (c.get("other") and c["G"]["n"] >= 2)) else ["err", False, "err", "err", "err"]     # another sink or another graph: incomparable
         if o["cmp"] != exp: out.append({"what": "comparisons (<=,==,<,>=,>) of %s and %s (q=%d,q'=%d): %s, model %s" % (c["D"], c["E"], c["q"], c["q2"], o["cmp"], exp)})
+        if "cmp2" in o and len(mo) > 1:
+            le2, eq2, lt2, ge2, gt2 = [x == "1" for x in mo[1]]
+            exp2 = [le2, eq2, lt2, ge2, gt2] if (c["q2"] == c["q"] and not (c.get("other") and c["G"]["n"] >= 2)) else ["err", False, "err", "err", "err"]
+            D2 = list(c["D"]); D2[c["mv"][0]] -= c["mv"][2]; D2[c["mv"][1]] += c["mv"][2]
+            if o["cmp2"] != exp2: out.append({"what": "the same two configurations compared again after chip_transfer%s on the first one's divisor (now %s): %s, model %s" % (tuple(c["mv"]), D2, o["cmp2"], exp2)})
+            if o["sum2"] != sum(x for v, x in enumerate(D2) if v != c["q"]): out.append({"what": "get_degree_sum() = %s after chips were moved on the underlying divisor, the chips off q now total %d" % (o["sum2"], sum(x for v, x in enumerate(D2) if v != c["q"]))})
     else:
         if o["count"] != int(mo[0][0]) or o["det"] != int(mo[0][1]) or o["count"] != o["det"]:
             out.append({"what": "#superstables reported %s, det(reduced Laplacian) %s; model %s" % (o["count"], o["det"], mo[0])})
